@@ -66,7 +66,7 @@ def guard(name, path, pattern, params, subst, kind="bool", doc="", count=1):
 
 C = "Constants."
 # ---- storage.rs
-guard("storage_expired", "src/storage.rs", r'fn is_expired\(&self, now: Instant\) -> bool \{\s*(.*?)\s*\}',
+guard("storage_expired", "src/storage.rs", r'impl ItemExpiration \{(?:(?!\nimpl ).)*?fn is_expired\(&self, now: Instant\) -> bool \{\s*(.*?)\s*\}',
       ["now", "inserted"], [(r'self\.inserted', 'inserted'), (r'\bEXPIRATION_TIME\b', C + 'EXPIRATION_TIME_ns')],
       doc="an entry of the expiry queue is expired")
 guard("storage_has_room", "src/storage.rs", r'match \(already_in_list, (self\.expires\.len\(\)\s*[<>=!]+\s*MAX_ITEMS_STORED)\)',
